@@ -309,11 +309,19 @@ package interpreter
 //@   modifies nothing
 //@   loop 1 invariant 0 <= rangeidx && forall(k, 0, rangeidx, typeDef.Fields[k].Required && typeDef.Fields[k].Default == nil ==> has(obj, typeDef.Fields[k].Name) && obj[typeDef.Fields[k].Name] != nil)
 //@   ensures result == nil ==> reqOK(obj, typeDef)
-// default expressions are evaluated by ApplyTypeDefaults; the summary assumes they do not touch the interpreter's tables
+// (syntax-tree nodes are never written after the parser has built them: structural scan types-frozen)
+//@ decl frozen ast.Field
+// defaults are applied exactly to absent fields: the result is a new object that keeps every field of
+// the body as it was and has every field for which the type declares a default (checked against the
+// body; the frame - default expressions do not touch the interpreter's tables - stays a summary)
 //@ func (*Interpreter).ApplyTypeDefaults
 //@   trusted
 //@   modifies nothing
-//@   ensures err == nil ==> result != nil
+//@   ensures err == nil ==> result != nil && fresh(result)
+//@   ensures err == nil ==> forall(k, string, old(has(obj, k)) ==> has(result, k) && result[k] == old(obj[k]))
+//@   ensures err == nil ==> forall(j, 0, len(typeDef.Fields), typeDef.Fields[j].Default != nil ==> has(result, typeDef.Fields[j].Name))
+//@   loop 1 invariant result != nil && fresh(result) && forall(k, string, visited(1, k) ==> has(result, k) && result[k] == obj[k]) && forall(k, string, has(result, k) ==> has(obj, k) && result[k] == obj[k]) && forall(k, string, has(obj, k) == old(has(obj, k)) && obj[k] == old(obj[k]))
+//@   loop 2 invariant result != nil && fresh(result) && 0 <= rangeidx && forall(k, string, old(has(obj, k)) ==> has(result, k) && result[k] == old(obj[k])) && forall(j, 0, rangeidx, typeDef.Fields[j].Default != nil ==> has(result, typeDef.Fields[j].Name))
 //@ func (*Interpreter).ExecuteRoute
 //@   callpre (*interpreter.Environment).Define arg1 == "input" && declIn(i, route) ==> (typeis(arg2, map[string]interface{}) && arg2.(map[string]interface{}) != nil && reqOK(arg2.(map[string]interface{}), declTD(i, route))) || reqOK(nil, declTD(i, route))
 
